@@ -581,6 +581,21 @@ impl VLog {
 		Ok(vlog)
 	}
 
+	/// Brings this instance in line with the value log directory after the directory
+	/// was replaced on disk (restore from a checkpoint): the open writer, the cached
+	/// read handles and the file table all belong to the discarded files (still
+	/// reachable through their open descriptors although unlinked), and the file
+	/// ids restart where the restored directory ends. Everything is dropped and
+	/// the directory is read again exactly as at start-up.
+	pub(crate) fn reload_after_restore(&self) -> Result<()> {
+		*self.writer.write() = None;
+		self.file_handles.write().clear();
+		self.files_map.write().clear();
+		self.next_file_id.store(1, Ordering::SeqCst);
+		self.active_writer_id.store(0, Ordering::SeqCst);
+		self.prefill_file_handles()
+	}
+
 	/// Appends a key+value pair to the log and returns a ValuePointer
 	pub(crate) fn append(&self, key: &[u8], value: &[u8]) -> Result<ValuePointer> {
 		// Ensure we have a writer
